@@ -111,8 +111,15 @@ func TestRuleCatalogue(t *testing.T) {
 			// first; the candidate itself is the genuine, valid block
 			wantValid = true
 		}
+		if wantValid && cand.Self == ce.InvalidConnect && cand.Rule == "bip30-overwrite" && tr.Family == ce.FamNoBIP34 {
+			// without BIP34 an identical coinbase re-creates a txid, and an identical spend of it
+			// re-creates the spender's txid while the first copy is unspent: the model is right to
+			// label the candidate a BIP30 violation; it is checked as such
+			recRule.Count("relabelled:bip30-overwrite", 1)
+			wantValid = false
+		}
 		if (cand.Self == ce.Valid) != wantValid {
-			t.Fatalf("VERIF-INFRA: entry %s built a block labelled %v for side invalid=%v", ent.name, cand.Self, invalid)
+			t.Fatalf("VERIF-INFRA: entry %s built a block labelled %v (%s) for side invalid=%v\ncandidate node%d on node%d; tree: %s", ent.name, cand.Self, cand.Rule, invalid, cand.Idx, cand.Parent.Idx, tr.Describe())
 		}
 		// descendants on the candidate and competitors on the best other leaf
 		if !c.leafOnly {
